@@ -19,8 +19,9 @@
    Side conditions that the static checker guarantees and the dynamics need are part of the rules:
    binders carry no channel and a non-empty identifier (the interpreter's self names have identifier
    ""), the two binders of a receive differ, a binder that does not rebind the provider differs from
-   `sh` (F22), a binder that rebinds the provider is not a variable in scope (the checker's "variable
-   names already defined"), and inside the scope of a binder x no self name carries the identifier x (`rs ∖ {x}`:
+   `sh` (F22), a binder that rebinds the provider hides a variable of the same name (`delete`: the
+   context here never shrinks, the checker's is linear, so a consumed name may still be in Γ), and
+   inside the scope of a binder x no self name carries the identifier x (`rs ∖ {x}`:
    Name.Substitute matches uninitialised names by identifier only — F24, F25). *)
 From stdpp Require Import gmap strings.
 Require Import Grits.Base Grits.ModeDefs Grits.Modes Grits.STypes Grits.Forms Grits.Subst Grits.TcDeps Grits.Expand
@@ -114,8 +115,8 @@ Inductive typed (Δ : gmap cid sty) : gmap string sty -> option string -> gset s
 (* ⊸R : <pay, cont> <- recv self; k   (cont names the provider in k) *)
 | T_RecvP Γ sh rs s pay cont from k A B m :
     prov_name sh rs from -> whd s (TLolli A B m) ->
-    binder pay -> binder cont -> ident pay <> ident cont -> Γ !! ident cont = None ->
-    typed Δ (<[ident pay := A]> Γ) (Some (ident cont)) (rs ∖ {[ident pay]} ∖ {[ident cont]}) B k ->
+    binder pay -> binder cont -> ident pay <> ident cont ->
+    typed Δ (<[ident pay := A]> (delete (ident cont) Γ)) (Some (ident cont)) (rs ∖ {[ident pay]} ∖ {[ident cont]}) B k ->
     typed Δ Γ sh rs s (FRecv pay cont from k)
 (* ⊗L : <pay, cont> <- recv from; k *)
 | T_RecvC Γ sh rs s pay cont from k T A B m :
@@ -188,8 +189,8 @@ Inductive typed (Δ : gmap cid sty) : gmap string sty -> option string -> gset s
     typed Δ Γ sh rs s (FCast to cont)
 (* ↑R : x <- shift self; k   (x names the provider in k) *)
 | T_ShiftP Γ sh rs s x from k fm tm A :
-    prov_name sh rs from -> whd s (TUp fm tm A) -> binder x -> Γ !! ident x = None ->
-    typed Δ Γ (Some (ident x)) (rs ∖ {[ident x]}) A k ->
+    prov_name sh rs from -> whd s (TUp fm tm A) -> binder x ->
+    typed Δ (delete (ident x) Γ) (Some (ident x)) (rs ∖ {[ident x]}) A k ->
     typed Δ Γ sh rs s (FShift x from k)
 (* ↓L : x <- shift from; k *)
 | T_ShiftC Γ sh rs s x from k T fm tm A :
@@ -211,8 +212,8 @@ Inductive typed (Δ : gmap cid sty) : gmap string sty -> option string -> gset s
 with typed_brs_p (Δ : gmap cid sty) : gmap string sty -> gset string -> brs -> branches -> Prop :=
 | TBP_nil Γ rs bs : typed_brs_p Δ Γ rs bs BrNil
 | TBP_cons Γ rs bs l pay k r A :
-    find_br l bs = Some A -> binder pay -> Γ !! ident pay = None ->
-    typed Δ Γ (Some (ident pay)) (rs ∖ {[ident pay]}) A k ->
+    find_br l bs = Some A -> binder pay ->
+    typed Δ (delete (ident pay) Γ) (Some (ident pay)) (rs ∖ {[ident pay]}) A k ->
     typed_brs_p Δ Γ rs bs r ->
     typed_brs_p Δ Γ rs bs (BrCons l pay k r)
 (* branches of a case on a client *)
